@@ -16,7 +16,7 @@ RULE = ("model-based histories: a capability profile (breeze in {breeze-control,
         "both, none}; rate select none/2-level/5-level; iECO, self-clean, vertical/horizontal swing angle present or not) and a "
         "list of up to 25 (quick) / 40 (thorough) operations from {set angle (every member), set rate select (members the profile "
         "supports), breeze_away/mild/breezeless := bool (only where supports_* is true), ieco := bool, start_self_clean, beep := "
-        "bool, change an ordinary 0x40 setting, apply, apply during which the reply to the state command is lost or corrupted, refresh, device-side change of a property}. Start: get_capabilities(), "
+        "bool, change an ordinary 0x40 setting, apply, apply during which the reply to the state command is lost or corrupted, apply during which another setter is called while it waits for the device, refresh, device-side change of a property}. Start: get_capabilities(), "
         "refresh(). Oracle: the model device's property store and write log: after each apply every property whose setter was "
         "called since the previous apply appears in exactly one 0xB0 of that apply under the advertised id with the vendor value "
         "(angles/rates raw, breeze-control 1..4, breeze-away 2/1, breezeless 1/0, iECO 13-byte record with number at 1 and switch "
@@ -213,6 +213,46 @@ def check_case(case: dict):
                         m.props[pid] = bytes([ANGLES[op[2] % 6]])
                     elif pid == 0x0039:
                         m.props[pid] = bytes([op[2] & 1])
+            elif k == "apply_concurrent":
+                # a setter is called while apply() is suspended waiting for the reply to its state command; the change must be
+                # transmitted by this apply or by the next one (exactly once), never lost
+                import asyncio
+                mark = len(m.prop_writes)
+                before = set(pending)
+                task = asyncio.ensure_future(ac.apply())
+                await asyncio.sleep(0.02)
+                late = None
+                if op[1] == 0 and profile["ud"]:
+                    ac.vertical_swing_angle = AC.SwingAngle(ANGLES[op[2] % 6])
+                    cv["ud"] = ANGLES[op[2] % 6]
+                    late = 0x0009
+                elif op[1] == 1 and profile["ieco"]:
+                    ac.ieco = bool(op[2] & 1)
+                    cv["ieco"] = bool(op[2] & 1)
+                    late = 0x00E3
+                elif op[1] == 2 and profile["rate"]:
+                    vals = RATES2 if profile["rate"] == 2 else RATES5
+                    ac.rate_select = AC.RateSelect(vals[op[2] % len(vals)])
+                    cv["rate"] = vals[op[2] % len(vals)]
+                    late = 0x0048
+                await task
+                w = m.prop_writes[mark:]
+                written = set()
+                for x in w:
+                    written |= {p for p, _v in x}
+                written.discard(0x001A)
+                if not before <= written and before:
+                    fail("apply/concurrent-lost", f"apply with a concurrent setter did not write the pending properties {sorted(hex(p) for p in before)}: wrote {sorted(hex(p) for p in written)}")
+                pending.clear()
+                if late is not None and late not in written:
+                    pending.add(late)          # not sent by this apply: it must go out with the next one
+                elif late is not None and late in written and len(w) == 1:
+                    # sent in this apply: the value on the wire must be the late one or the earlier one re-sent later
+                    pass
+                dv = device_view()
+                for key in ("ud", "lr", "rate", "ieco", "breeze"):
+                    if key in dv and not (late is not None and late in pending and key == {0x0009: "ud", 0x00E3: "ieco", 0x0048: "rate"}.get(late)):
+                        cv[key] = dv[key] if w else cv[key]
             elif k in ("apply", "apply_lossy"):
                 mark = len(m.prop_writes)
                 nstate = len(m.control_bodies)
@@ -335,6 +375,7 @@ def ops_strategy(max_len: int):
         st.tuples(st.just("ieco"), st.booleans()), st.tuples(st.just("beep"), st.booleans()), st.tuples(st.just("setting"), st.integers(0, 60)),
         st.tuples(st.just("clean")), st.tuples(st.just("apply")), st.tuples(st.just("apply")), st.tuples(st.just("refresh")),
         st.tuples(st.just("apply_lossy"), st.integers(0, 1)),
+        st.tuples(st.just("apply_concurrent"), st.integers(0, 2), st.integers(0, 7)),
         st.tuples(st.just("remote"), st.sampled_from([0x0009, 0x000A, 0x0048, 0x0043, 0x0042, 0x0018, 0x00E3, 0x0039]), st.integers(0, 7)),
     ).map(list)
     free = st.lists(op, min_size=1, max_size=max_len)
@@ -355,6 +396,7 @@ def run(ctx) -> None:
                            ["breezeless", False], ["ieco", True], ["ieco", False], ["clean"], ["beep", True]):
                 scripts.append([setter, ["apply"], ["refresh"], ["apply"], ["refresh"]])
                 scripts.append([setter, ["apply_lossy", len(scripts) % 2], ["refresh"], ["apply"], ["refresh"]])
+                scripts.append([setter, ["apply_concurrent", len(scripts) % 3, len(scripts) % 5], ["apply"], ["refresh"], ["apply"]])
                 scripts.append([["breezeless", True], ["apply"], setter, ["apply"], ["refresh"], ["remote", 0x0042, 1], ["refresh"], ["remote", 0x0018, 1], ["refresh"]])
             scripts.append([["away", True], ["breezeless", True], ["apply"], ["refresh"], ["away", True], ["apply"], ["refresh"], ["breezeless", False], ["apply"], ["refresh"]])
             for s in scripts:
